@@ -338,10 +338,12 @@ def build_pool(ctx, col, prm):
     core.hyp_run(fixed.append, st.tuples(G.failing_program(), G.incantation_program(),
                                          G.tight_program(), G.builtin_trio(),
                                          G.import_pair(),
-                                         G.rec_program(vertical_multi=True)),
+                                         G.rec_program(vertical_multi=True),
+                                         G.failing_incantation_program()),
                  6, ctx.hyp_seed + 2)
     # (a late example: the first ones are the simplest)
-    gen += list(fixed[-1][:3]) + list(fixed[-1][3]) + list(fixed[-1][4]) + [fixed[-1][5]]
+    gen += list(fixed[-1][:3]) + list(fixed[-1][3]) + list(fixed[-1][4]) + [fixed[-1][5],
+                                                                           fixed[-1][6]]
     for j, it in enumerate(gen):
         it['id'] = 'gen:%d' % j
         it['prefer'] = it.pop('preds')
@@ -800,6 +802,12 @@ def run_histories(ctx, col, prm, items, pool, baseline, n_hist, hs0, batch=None)
     usable = []
     for it in items:
         preds = [p for (i, p) in baseline if i == it['id'] and p != '<parse>']
+        if not preds and (it['id'], '<parse>') in baseline and it.get('prefer'):
+            # a main file that fails to PARSE: compiling any predicate of it must end in
+            # that same parse error (and must leave no parser state behind)
+            q = list(it['prefer'])[0]
+            baseline[(it['id'], q)] = baseline[(it['id'], '<parse>')]
+            preds = [q]
         if not preds:
             continue
         if it.get('cost', 0) > HISTORY_MAX_COST:
@@ -880,6 +888,21 @@ def run_histories(ctx, col, prm, items, pool, baseline, n_hist, hs0, batch=None)
             H.labels.add('switch_to:' + eng[b['id']])
             self._compile(a, p)
             self._compile(b, preds[pj % len(preds)])
+
+        @precondition(lambda self: bool(roles['sensitive']) and (
+            bool(roles['failing']) or bool(roles['incantation'])))
+        @rule(i=idx, j=idx, pi=idx, pj=idx, first=st.sampled_from(['failing', 'incantation']))
+        def parser_state_then_sensitive(self, i, j, pi, pj, first):
+            """A failing (possibly incantation-carrying) or incantation program, and right
+            after it a program whose text reads differently under the experimental
+            syntax: parser state must not survive the earlier parse, failed or not."""
+            if not roles[first]:
+                first = 'failing' if roles['failing'] else 'incantation'
+            a, p = pick(first, i, pi)
+            b, q = pick('sensitive', j, pj)
+            H.labels.add('step:parser_state_then_sensitive:' + first)
+            self._compile(a, p)
+            self._compile(b, q)
 
         @precondition(lambda self: len(roles['imports']) >= 2)
         @rule(i=idx, j=idx, pi=idx, pj=idx)
